@@ -136,4 +136,155 @@ Section Safe.
   Lemma safe_protect_tail fuel t hd idx lk x lb sg vis :
     safe t (protect fuel a_ld_tail t 0) (mkV hd idx lk (PEnq x lb sg vis false)) (Qprot_enq hd idx lk x lb).
   Proof. unfold protect. apply safe_ld_tail. intros p. apply safe_protect_tail_loop. Qed.
+
+  Lemma optnat_eqb_eq a b : optnat_eqb a b = true <-> a = b.
+  Proof.
+    destruct a, b; cbn; try (split; congruence). rewrite Nat.eqb_eq. split; congruence.
+  Qed.
+
+  Lemma safe_unlock {R} t hd idx ln ph (k : V -> prog R) Q :
+    (forall v, safe t (k v) (mkV false idx None ph) Q) ->
+    safe t (Act a_unlock k) (mkV hd idx (Some ln) ph) Q.
+  Proof.
+    intros Hk. cbn [Conc.safe]. intros g a tr HI Hv. unfold aview in Hv. cbn [a_unlock fst snd]. rewrite tag1.
+    exists (upd a t (mkV false idx None ph)). split; [|split; [apply frame_upd|]].
+    - pose proof (Inv_lock_step qf g a tr t false None KSt HI) as K. use_view K Hv. apply K.
+      + discriminate.
+      + intros _. split; [reflexivity|discriminate].
+    - rewrite aview_upd_same. apply Hk.
+  Qed.
+
+  (** stores to the cells of the segment being created (not yet published: its cells are null already) *)
+  Lemma safe_init_cells {R} t hd idx l n ph (k : prog R) Q : forall idxs,
+    safe t k (mkV hd idx (Some (l, n)) ph) Q ->
+    safe t (init_cells n idxs k) (mkV hd idx (Some (l, n)) ph) Q.
+  Proof.
+    induction idxs as [|i r IH]; intros Hk; cbn [init_cells]; [exact Hk|].
+    cbn [Conc.safe]. intros g a tr HI Hv. unfold aview in Hv. cbn [a_init_cell fst snd]. rewrite tag1.
+    exists (upd a t (a t)). split; [|split; [apply frame_upd|]].
+    - apply (Inv_silent qf g); auto.
+      repeat split; auto. intros s' i'. cell_cases g n i null_cell s' i' E; rewrite E; [|reflexivity].
+      pose proof (inv_si _ _ _ _ HI) as HS.
+      pose proof (vi_lock _ _ _ _ (inv_vi _ _ _ _ HI t)) as VL. rewrite Hv in VL. destruct (VL l n eq_refl) as (_ & _ & En).
+      destruct (cells g n i) as [p m] eqn:C. destruct p as [y|].
+      + exfalso. destruct (si_range _ _ HS n i) as (L & _); [unfold cptr; rewrite C; discriminate|lia].
+      + pose proof (si_wf _ _ HS n i) as W. unfold cptr, cmark in W. rewrite C in W. cbn in W. rewrite W; reflexivity.
+    - rewrite aview_upd_same, Hv. apply IH. exact Hk.
+  Qed.
+
+  Lemma lock_facts g a tr t hd idx l n ph :
+    Inv qf g a tr -> a t = mkV hd idx (Some (l, n)) ph -> lockw g = true /\ slist g = l /\ nalloc g = n.
+  Proof.
+    intros HI Hv. pose proof (vi_lock _ _ _ _ (inv_vi _ _ _ _ HI t)) as VL. rewrite Hv in VL. apply (VL l n eq_refl).
+  Qed.
+
+  (** create_tail, early return: m_pTail.store( &m_List.back()) *)
+  Lemma safe_st_tail_back {R} t hd idx l n ph b (k : V -> prog R) Q :
+    last_opt l = Some b ->
+    (forall v, safe t (k v) (mkV hd idx (Some (l, n)) ph) Q) ->
+    safe t (Act (a_st_tail (Some b)) k) (mkV hd idx (Some (l, n)) ph) Q.
+  Proof.
+    intros Hb Hk. cbn [Conc.safe]. intros g a tr HI Hv. unfold aview in Hv. cbn [a_st_tail fst snd]. rewrite tag1.
+    destruct (lock_facts _ _ _ _ _ _ _ _ _ HI Hv) as (_ & El & En).
+    exists (upd a t (a t)). split; [|split; [apply frame_upd|]].
+    - apply Inv_st_tail; auto. intros s E. inversion E; subst s.
+      rewrite <- El in Hb. pose proof (slist_last _ _ _ (inv_si _ _ _ _ HI) Hb). lia.
+    - rewrite aview_upd_same, Hv. apply Hk.
+  Qed.
+
+  (** guard.assign( p ) for a segment p the lock holder took from the list: the enqueuer's segment is now p *)
+  Lemma safe_assign_back {R} t hd idx l n x lb sg vis b (k : prog R) Q :
+    In b l ->
+    safe t k (mkV hd idx (Some (l, n)) (PEnq x lb (Some b) [] false)) Q ->
+    safe t (assign_seg t 0 b k) (mkV hd idx (Some (l, n)) (PEnq x lb sg vis false)) Q.
+  Proof.
+    intros Hb Hk. unfold assign_seg. cbn [Conc.safe]. intros g a tr HI Hv. unfold aview in Hv. cbn [a_st_hp fst snd]. rewrite tag1.
+    destruct (lock_facts _ _ _ _ _ _ _ _ _ HI Hv) as (_ & El & En).
+    exists (upd a t (mkV hd idx (Some (l, n)) (PEnq x lb (Some b) [] false))). split; [|split; [apply frame_upd|]].
+    - pose proof (Inv_view qf g a tr t (set_hp g t 0 (HSeg b)) KSt (obj_hp t 0) true (PEnq x lb (Some b) [] false) HI) as K.
+      use_view K Hv. apply K; clear K.
+      + repeat split; auto.
+      + intros t' N. cbn. destruct (Nat.eqb_spec t' t); [contradiction|reflexivity].
+      + discriminate.
+      + pose proof (PH_own_acc qf g a tr t (set_hp g t 0 (HSeg b)) KSt (obj_hp t 0) true HI) as P. use_view P Hv.
+        eapply PH_enq_sg; [apply P; [repeat split; auto|discriminate]|].
+        intros s E. inversion E; subst s. cbn.
+        pose proof (inv_si _ _ _ _ HI) as HS. destruct (si_list _ _ HS) as (E1 & L). rewrite <- El in Hb. rewrite E1 in Hb.
+        apply in_seq in Hb. unfold lo in Hb. lia.
+      + apply taker_iff_ph; [discriminate|cbn; discriminate].
+    - rewrite aview_upd_same. apply safe_faa_sync. intros _. exact Hk.
+  Qed.
+
+  Lemma last_opt_in l b : last_opt l = Some b -> In b l.
+  Proof.
+    unfold last_opt. destruct l as [|y r]; [discriminate|]. intros E. inversion E.
+    destruct (exists_last (l := y :: r)) as (l' & z & ->); [discriminate|]. rewrite last_last. apply in_app_iff. right. left. reflexivity.
+  Qed.
+
+  (** create_tail, first segment: m_pHead.store( pNew ) *)
+  Lemma safe_st_head_first {R} t idx n ph (k : V -> prog R) Q :
+    (forall v, safe t (k v) (mkV true idx (Some ([], n)) ph) Q) ->
+    safe t (Act (a_st_head (Some n)) k) (mkV false idx (Some ([], n)) ph) Q.
+  Proof.
+    intros Hk. cbn [Conc.safe]. intros g a tr HI Hv. unfold aview in Hv. cbn [a_st_head fst snd]. rewrite tag1.
+    destruct (lock_facts _ _ _ _ _ _ _ _ _ HI Hv) as (_ & El & En).
+    exists (upd a t (mkV true idx (Some ([], n)) ph)). split; [|split; [apply frame_upd|]].
+    - pose proof (Inv_st_head qf g a tr t (Some n) true HI) as K. use_view K Hv. apply K.
+      + discriminate.
+      + intros s E. inversion E; subst s. unfold lo. rewrite El. cbn. lia.
+      + discriminate.
+      + discriminate.
+    - rewrite aview_upd_same. apply Hk.
+  Qed.
+
+  (** create_tail: m_List.push_back( *pNew ); m_pTail.store( pNew ) *)
+  Lemma safe_push {R} t hd idx l n x lb sg vis (k : V -> prog R) Q :
+    (l = [] -> hd = true) ->
+    (l = [] \/ (sg <> None /\ sg = last_opt l /\ covers qf vis)) ->
+    (forall v, safe t (k v) (mkV false idx (Some (l ++ [n], S n)) (PEnq x lb (Some n) [] false)) Q) ->
+    safe t (Act (a_push_st_tail n) k) (mkV hd idx (Some (l, n)) (PEnq x lb sg vis false)) Q.
+  Proof.
+    intros Hhd Hor Hk. cbn [Conc.safe]. intros g a tr HI Hv. unfold aview in Hv. cbn [a_push_st_tail fst snd]. rewrite tag1.
+    destruct (lock_facts _ _ _ _ _ _ _ _ _ HI Hv) as (_ & El & En).
+    exists (upd a t (mkV false idx (Some (l ++ [n], S n)) (PEnq x lb (Some n) [] false))). split; [|split; [apply frame_upd|]].
+    - pose proof (Inv_push qf g a tr t x lb sg vis l n HI) as K. use_view K Hv. apply K; auto.
+      destruct l as [|f r].
+      + pose proof (vi_hd _ _ _ _ (inv_vi _ _ _ _ HI t)) as Vh. rewrite Hv in Vh. cbn in Vh. apply Vh. auto.
+      + intros E. rewrite (si_head0 _ _ (inv_si _ _ _ _ HI) E) in El. discriminate.
+    - rewrite aview_upd_same. apply Hk.
+  Qed.
+
+  Definition Qct idx x lb : option nat -> view -> Prop :=
+    fun r vw => match r with None => True | Some s' => vw = mkV false idx None (PEnq x lb (Some s') [] false) end.
+
+  Lemma safe_create_tail fuel t idx x lb sg vis pTail :
+    (pTail = None \/ (pTail = sg /\ covers qf vis)) ->
+    safe t (create_tail fuel qf t 0 pTail) (mkV false idx None (PEnq x lb sg vis false)) (Qct idx x lb).
+  Proof.
+    intros Hor. unfold create_tail. apply Conc.safe_bind.
+    eapply Conc.safe_weaken; [|apply safe_lock_loops].
+    intros [[l n]|] vw Hq; cbn in Hq; [subst vw|exact I].
+    assert (Hfresh : forall hd, (l = [] -> hd = true) -> (l = [] \/ (sg <> None /\ sg = last_opt l /\ covers qf vis)) ->
+      safe t (Act (a_push_st_tail n) (fun _ => assign_seg t 0 n (Act a_unlock (fun _ => Ret (Some n)))))
+        (mkV hd idx (Some (l, n)) (PEnq x lb sg vis false)) (Qct idx x lb)).
+    { intros hd H1 H2. apply safe_push; auto. intros _.
+      eapply safe_assign_back; [apply in_app_iff; right; left; reflexivity|].
+      apply safe_unlock. intros _. reflexivity. }
+    assert (Hfresh2 : (l = [] \/ (sg <> None /\ sg = last_opt l /\ covers qf vis)) ->
+      safe t (init_cells n (seq 0 qf)
+         ((fun k => match l with [] => Act (a_st_head (Some n)) (fun _ => k) | _ => k end)
+            (Act (a_push_st_tail n) (fun _ => assign_seg t 0 n (Act a_unlock (fun _ => Ret (Some n)))))))
+        (mkV false idx (Some (l, n)) (PEnq x lb sg vis false)) (Qct idx x lb)).
+    { intros H2. apply safe_init_cells. destruct l as [|f r].
+      - apply safe_st_head_first. intros _. apply Hfresh; auto.
+      - apply Hfresh; auto. discriminate. }
+    destruct (last_opt l) as [b|] eqn:Hl.
+    - destruct (optnat_eqb pTail (Some b)) eqn:Hp; cbn [negb].
+      + apply Hfresh2. right. apply optnat_eqb_eq in Hp. destruct Hor as [->|(E & C)]; [discriminate|].
+        subst pTail. rewrite <- E. split; [discriminate|]. split; [reflexivity|exact C].
+      + apply safe_st_tail_back; [exact Hl|]. intros _.
+        eapply safe_assign_back; [apply last_opt_in; exact Hl|].
+        apply safe_unlock. intros _. reflexivity.
+    - apply Hfresh2. left. destruct l; [reflexivity|discriminate].
+  Qed.
 End Safe.
